@@ -18,8 +18,8 @@ Streams (DESIGN 3.2):
           cif_adp_aniso, adp_labels_are_the_uani_rows) and vs the model's loops
 Histories (theorem hist_export_reflects_current): besides "read one file, export once" a case can be a history on
 ONE Shelxfile object - read (string / file / reload), export, then rounds of {read another file with the same
-object | edits through the API: atom.element (old or new SFAC element), atom.sof, set_uvals, to_isotropic,
-delete, shx.Z, shx.unit.values | nothing | a second object reading and exporting in between}, each followed by an
+object | edits through the API: add_atom (iso / six Uij, PART, free-variable sof), atom.element (old or new SFAC
+element), atom.sof, set_uvals, to_isotropic, delete, shx.Z, shx.unit.values | nothing | a second object reading and exporting in between}, each followed by an
 export. EVERY export goes through all four streams against the description of the state the object is in at that
 moment; signatures of failures in later exports end in |after=<reread|edit|export|other-object>.
 Only what the property states is observed: R1/wR2/GooF, space-group name, formula weight, volume, the creation
@@ -280,6 +280,8 @@ def make_case(rng, setting=None, flags=None):
     cell = gen.rand_cell(rng)
     atoms = []
     used = set()
+    used_labels = set()
+    resi_form = rng.choice(['num class', 'class num', 'num'])
     for i in range(rng.randint(0 if rng.random() < 0.05 else 1, 10)):
         s = rng.randrange(nel) + 1
         xyz = [round(rng.uniform(-0.5, 1.5), rng.choice([4, 5, 6])) for _ in range(3)]
@@ -313,8 +315,17 @@ def make_case(rng, setting=None, flags=None):
         if part and rng.random() < 0.4 and len(fvars) > 1:
             m = rng.randint(2, len(fvars))
             part_sof = float(10 * m * rng.choice([1, -1]) + 1)
-        resi = rng.choice([0, 0, 0, 1, 2, 17])
-        atoms.append(dict(name=gen.atom_name(rng, sfac[s - 1], used), sfac=s, xyz=xyz, code=code, u=u, part=part,
+        resi = rng.choice([0, 0, 0, 0, 1, 2, 17, -1, -3, -999, 9999, 104])
+        name = None
+        if atoms and rng.random() < 0.3:
+            # the same atom name again in another residue: only the residue suffix tells the labels apart
+            other = rng.choice(atoms)
+            if (other['name'], resi) not in used_labels:
+                name, s = other['name'], other['sfac']
+        if name is None:
+            name = gen.atom_name(rng, sfac[s - 1], used)
+        used_labels.add((name, resi))
+        atoms.append(dict(name=name, sfac=s, xyz=xyz, code=code, u=u, part=part,
                           part_sof=part_sof, resi=resi, afix=(len(u) == 1 and u[0] < 0 and rng.random() < 0.5)))
     nq = rng.choice([0, 0, 1, 2, 4])
     qpeaks = [dict(name=f'Q{k + 1}', xyz=[round(rng.uniform(0, 1), 4) for _ in range(3)], height=round(rng.uniform(0.1, 2.5), 2))
@@ -322,20 +333,35 @@ def make_case(rng, setting=None, flags=None):
     return dict(setting=name, latt=latt, symm=symm, present=present, cell=list(cell), z=z, sfac=sfac, unit=unit, fvars=fvars,
                 temp=rng.choice([-173.15, -100.0, 20.0, -173.18, 22.5, -123.456, 0.0]), size=[round(rng.uniform(0.02, 0.6), 3) for _ in range(3)],
                 r1=round(rng.uniform(0.02, 0.12), 4), wr2=round(rng.uniform(0.05, 0.3), 4), goof=round(rng.uniform(0.8, 1.3), 3),
-                titl=rng.choice(['verif', 'Mo_k7 test', 'p21c in P2(1)/c', 'x']), atoms=atoms, qpeaks=qpeaks)
+                titl=rng.choice(['verif', 'Mo_k7 test', 'p21c in P2(1)/c', 'x']), atoms=atoms, qpeaks=qpeaks, resi_form=resi_form)
 
 
 def random_edit(rng, state):
     """one API edit that is valid for the described state"""
-    kinds = ['Z', 'unit']
+    kinds = ['Z', 'unit', 'add', 'add']
     if state['atoms']:
         kinds += ['element', 'element', 'sof', 'uvals', 'to_iso', 'delete']
     kind = rng.choice(kinds)
     if kind == 'Z':
         return dict(op='edit', kind='Z', z=rng.choice([z for z in [1, 2, 3, 4, 6, 8, 12] if z != z_now(state)]))
+    if kind == 'add':
+        el = rng.choice(state['sfac'])
+        names = {a['name'] for a in state['atoms']} | {q['name'] for q in state['qpeaks']}
+        name = next(n for n in (f'{el.upper()}{k}'[:4] for k in rng.sample(range(100, 999), 50)) if n not in names)
+        if rng.random() < 0.6:
+            u = [round(rng.uniform(0.01, 0.09), 5) for _ in range(3)] + [round(rng.uniform(-0.02, 0.02), 5) or 0.00123 for _ in range(3)]
+        else:
+            u = [round(rng.uniform(0.01, 0.09), 5)]
+        nfv = len(state['fvars'])
+        code = rng.choice([11.0, 10.5] + ([10.0 * m * sg + 1 for m in range(2, nfv + 1) for sg in (1, -1)] if nfv > 1 else []))
+        return dict(op='edit', kind='add', name=name, el=el, xyz=[round(rng.uniform(-0.5, 1.5), 5) for _ in range(3)], u=u,
+                    part=rng.choice([0, 0, 1, 2, -1]), code=float(code))
     if kind == 'unit':
         return dict(op='edit', kind='unit', j=rng.randrange(len(state['unit'])), v=float(rng.choice([3, 5, 9, 14, 20, 28, 1100])))
     i = rng.randrange(len(state['atoms']))
+    if kind == 'delete' and state['atoms'][i].get('added'):
+        # (deleting an atom that add_atom() created raises 'object is not in the file': an API matter of C04/C08, not of the export)
+        kind = 'to_iso'
     if kind == 'element':
         up = [e.upper() for e in state['sfac']]
         if rng.random() < 0.5 and len(up) > 1:
@@ -361,7 +387,10 @@ def make_history(rng, rounds=None, flags=None):
     {read another file with the same object | edits through the API | nothing | activity of another object}, each
     followed by an export; every export is compared with the description of the state the object is in then"""
     first = make_case(rng, flags=flags)
-    steps = [dict(op='read', case=first, via=rng.choice(['string', 'file'])), dict(op='export')]
+    steps = [dict(op='read', case=first, via=rng.choice(['string', 'file']))]
+    if not (rounds and rounds[0] == 'noexport') and not (rounds is None and rng.random() < 0.3):
+        steps.append(dict(op='export'))       # otherwise the first export comes after the first round
+    rounds = [r for r in rounds if r != 'noexport'] if rounds else rounds
     state = copy.deepcopy(first)
     if rounds is None:
         rounds = [rng.choices(['reread', 'edit', 'again', 'other'], [4, 4, 1, 2])[0] for _ in range(rng.randint(1, 3))]
@@ -422,8 +451,13 @@ def render(case):
     cur_resi = 0
     cur_part = 0
     for a in case['atoms']:
+        if a.get('added'):
+            continue
         if a['resi'] != cur_resi:
-            L.append(f'RESI {a["resi"]} RES' if a['resi'] else 'RESI 0')
+            form = case.get('resi_form', 'num class')
+            cls = 'RES' if a['resi'] % 2 else 'B4X'
+            L.append('RESI 0' if not a['resi'] else f'RESI {a["resi"]} {cls}' if form == 'num class' else
+                     f'RESI {cls} {a["resi"]}' if form == 'class num' else f'RESI {a["resi"]}')
             cur_resi = a['resi']
         if a['part'] != cur_part or a.get('part_sof') is not None:
             L.append(f'PART {a["part"]}' + (f' {a["part_sof"]:.5f}' if a.get('part_sof') is not None else ''))
@@ -534,6 +568,9 @@ def edit_state(state, ed, shx=None):
         st['atoms'][ed['i']]['u'] = [0.04]
     elif kind == 'delete':
         del st['atoms'][ed['i']]
+    elif kind == 'add':
+        st['atoms'].append(dict(name=ed['name'], sfac=[e.upper() for e in st['sfac']].index(ed['el'].upper()) + 1, xyz=list(ed['xyz']),
+                                code=ed['code'], u=list(ed['u']), part=ed['part'], part_sof=None, resi=0, afix=False, added=True))
     elif kind == 'Z':
         st['z_now'] = ed['z']
     elif kind == 'unit':
@@ -561,6 +598,11 @@ def edit_impl(shx, state, ed):
             atom.to_isotropic()
         else:
             atom.delete()
+    elif kind == 'add':
+        # the second entry point for atoms: Shelxfile.add_atom()
+        u = list(ed['u'])
+        shx.add_atom(name=ed['name'], coordinates=list(ed['xyz']), element=ed['el'],
+                     uvals=(u if len(u) == 6 else [u[0], 0.0, 0.0, 0.0, 0.0, 0.0]), part=ed['part'], sof=ed['code'])
     elif kind == 'Z':
         shx.Z = ed['z']
     elif kind == 'unit':
@@ -603,10 +645,12 @@ def run_history(top):
                     else:
                         shx.read_file(path)
                     paths[o] = path
+                if o not in since and exported:
+                    since[o] = ['other-object']      # another object of the process has exported before this one is first used
                 since.setdefault(o, []).append('reread' if o in states else 'read')
                 states[o] = copy.deepcopy(st['case'])
                 for other in since:
-                    if other != o and other in exported:
+                    if other != o:
                         since[other].append('other-object')
             elif st['op'] == 'edit':
                 edit_impl(objs[o], states[o], st)
@@ -619,7 +663,7 @@ def run_history(top):
                 exported[o] = True
                 since[o] = []
                 for other in since:
-                    if other != o and other in exported:
+                    if other != o:
                         since[other].append('other-object')
             else:
                 raise ValueError(st['op'])
@@ -705,10 +749,70 @@ def dec_op(j):
 
 
 def evaluate(ctx, cases, stream=None):
+    n0 = len(ctx.failures)
     try:
-        _evaluate(ctx, cases)
+        try:
+            _evaluate(ctx, cases)
+        finally:
+            # also when core stops the exploration (EnoughFailures): what is reported must reproduce
+            isolate(ctx, cases, n0)
     finally:
         cleanup()
+
+
+def signatures_in_fresh_process(case):
+    """evaluate one case in a fresh interpreter (no earlier export in the process) -> set of failure signatures, or None"""
+    import json
+    import subprocess
+    import sys
+    p = subprocess.run([sys.executable, '-m', 'harness.props.c18'], input=json.dumps(case), cwd=str(core.VERIF), text=True,
+                       stdout=subprocess.PIPE, stderr=subprocess.PIPE, env=dict(os.environ, PYTHONDONTWRITEBYTECODE='1'))
+    for line in p.stdout.splitlines():
+        if line.startswith('SIGNATURES '):
+            return set(json.loads(line[len('SIGNATURES '):]))
+    return None
+
+
+def isolate(ctx, cases, n0):
+    """A reported input must reproduce from its replay, i.e. in a fresh process. The first failure of every
+    signature is re-evaluated in a fresh interpreter. If it does not fail there, it depends on what the process
+    exported before (state kept in a class or module): the payload becomes 'another object reads and exports an
+    earlier case, then this input' (found by trying the plain cases evaluated before it), and the signature gets
+    the suffix of that history class."""
+    verdict = ctx.extra.setdefault('isolation_verdicts', {})       # signature -> suffix for later failures of the same signature
+    plain = [c for c in cases if 'history' not in c]
+    for f in ctx.failures[n0:]:
+        sig = f['signature']
+        case = f['payload'].get('case')
+        if not isinstance(case, dict) or sig in ctx.known:
+            continue
+        if sig not in verdict:
+            sigs = signatures_in_fresh_process(case)
+            if sigs is None or sig in sigs:
+                verdict[sig] = ''
+            else:
+                verdict[sig] = '|only-after-earlier-exports-in-the-process'
+                steps = steps_of(case)
+                for pred in reversed(plain[-8:]):
+                    hist = dict(history=[dict(op='read', case=pred, via='string', obj=1), dict(op='export', obj=1)] + list(steps))
+                    hs = signatures_in_fresh_process(hist) or set()
+                    hit = [h for h in hs if h.split('|after=')[0] == sig.split('|after=')[0] and 'other-object' in h]
+                    if hit:
+                        verdict[sig] = '|after=other-object'
+                        f['payload'] = dict(f['payload'], case=hist)
+                        f['what'] += ' [not in a fresh process: only after another object of the process exported an earlier model]'
+                        f['signature'] = hit[0]
+                        break
+                else:
+                    f['what'] += ' [does not reproduce in a fresh process: depends on earlier exports of this run]'
+                    f['signature'] = sig + verdict[sig]
+                continue
+        if verdict[sig]:
+            # a later failure of a signature that is known to need earlier exports: same class, the first one carries the replay
+            f['signature'] = (sig.split('|after=')[0] + '|after=other-object') if verdict[sig] == '|after=other-object' else sig + verdict[sig]
+            if verdict[sig] == '|after=other-object':
+                f['signature'] = next((g['signature'] for g in ctx.failures if g is not f and g['signature'].startswith(sig.split('|after=')[0])
+                                       and 'other-object' in g['signature'] and 'history' in (g['payload'].get('case') or {})), f['signature'])
 
 
 def _evaluate(ctx, cases):
@@ -790,7 +894,8 @@ def _evaluate(ctx, cases):
             fail(obs.get('errsig', 'C18|parse'), f'generated valid file / history not processed as expected: {obs["error"]}',
                  dict(base, stream='total', actual=obs['error']), kind='correspondence')
             continue
-        want_names = [a['name'] for a in case['atoms']] + [q['name'] for q in case['qpeaks']]
+        want_names = [a['name'] for a in case['atoms'] if not a.get('added')] + [q['name'] for q in case['qpeaks']] + \
+                     [a['name'] for a in case['atoms'] if a.get('added')]
         if obs['names'] != want_names:
             fail('C18|parse|atoms', f'generated valid file: atoms {obs["names"]} read, {want_names} written',
                      dict(base, stream='total', actual=obs['names'], expected=want_names), kind='correspondence')
@@ -1057,7 +1162,7 @@ def run(ctx):
     c['atoms'] = [dict(name='C1', sfac=1, xyz=[0.1, 0.2, 0.3], code=11.0, u=[0.02] + list(CANCELLING[0]), part=0, part_sof=None, resi=0, afix=False)]
     cases.append(c)
     # histories on one object: a fixed set of shapes first, then random ones
-    for rounds in (['reread'], ['edit:element'], ['edit:Z'], ['edit:unit'], ['edit:sof'], ['edit:uvals'], ['edit:delete'], ['edit:to_iso'],
+    for rounds in (['noexport', 'edit:add'], ['edit:add'], ['noexport', 'edit:uvals'], ['noexport', 'edit:element'], ['reread'], ['edit:element'], ['edit:Z'], ['edit:unit'], ['edit:sof'], ['edit:uvals'], ['edit:delete'], ['edit:to_iso'],
                    ['again'], ['other'], ['reread', 'edit', 'reread'], ['edit', 'again', 'edit']):
         for _ in range(2):
             cases.append(make_history(ctx.rng, rounds=list(rounds), flags={} if ctx.rng.random() < 0.5 else None))
@@ -1084,3 +1189,17 @@ def run(ctx):
         ctx.extra['grid'] = 'every row type x every translation of the quantifier under LATT +-1..7'
     for i in range(0, len(cases), 300):
         evaluate(ctx, cases[i:i + 300])
+
+
+if __name__ == '__main__':
+    # one case from stdin, evaluated in this fresh interpreter; prints the failure signatures (used by `isolate`)
+    import json
+    import sys
+    _case = json.loads(sys.stdin.read())
+    core.import_repo()
+    _ctx = core.Ctx('C18', 'quick', 0)
+    try:
+        _evaluate(_ctx, [_case])
+    finally:
+        cleanup()
+    print('SIGNATURES ' + json.dumps(sorted({f['signature'] for f in _ctx.failures})))
